@@ -63,8 +63,8 @@ def run(ctx):
     modes.append("big+kill:lq.delete:1")
     modes.append("big503+kill:lq.delete:1")
     # the same for a page requisite: the first asset of the first page is slow to write, the small ones next to it are not
-    modes.append("bigasset+kill:lq.finish.recv@seed-bigasset:1")
-    modes.append("bigasset+kill:fin.finish@seed-bigasset:1")
+    # (which request of a page starts last is up to the scheduler: several cases)
+    modes += ["bigasset+kill:lq.finish.recv@seed-bigasset:1"] * (3 if quick else 6)
     # a graceful stop while the first attempt of a URL is in flight; the attempt is cut after the stop began, the retry
     # would succeed (the worker hands a finished seed on only every other time: several cases)
     modes += ["flaky+stop:req:1"] * (3 if quick else 8)
@@ -83,7 +83,7 @@ def run(ctx):
     for ri, (mode, p1, p2, t1, t2) in enumerate(results):
         if not os.path.exists(t1) or not os.path.exists(t2):
             raise vf.Inconclusive("case %s produced no trace" % mode)
-        mode = "%s#%d" % (mode, ri) if mode.startswith("flaky") else mode     # the same case may run several times
+        mode = "%s#%d" % (mode, ri) if (mode.startswith("flaky") or mode.startswith("bigasset")) else mode     # the same case may run several times
         cat = os.path.join(ctx.scratch, "cat-%s.ndjson" % mode.replace(":", "_"))
         with open(cat, "w") as out:
             out.write(open(t1).read())
